@@ -28,6 +28,18 @@ where
     }
   }
 
+  // a handle for emitting into this subject that does not share the
+  // subscribe / unsubscribe hooks: a hook that captured a full clone of the
+  // subject would own itself and never be released
+  pub(crate) fn emitter(&self) -> Subject<'a, Item> {
+    Subject {
+      observers: Arc::clone(&self.observers),
+      serial: Arc::clone(&self.serial),
+      on_subscribe: Arc::new(RwLock::new(None)),
+      on_unsubscribe: Arc::new(RwLock::new(None)),
+    }
+  }
+
   fn fetch_observers(&self) -> Vec<Observer<'a, Item>> {
     let binding = self.observers.read().unwrap();
     let x = binding.iter().map(|x| x.1.clone());
